@@ -7,8 +7,8 @@ encodings.  NOT all byte strings.
 
 Model: spec/wire
   WirePaths   abstract level (Canon, H = digest of the signed part, SizeOf; PathIndependent, SizeExact, NoRefusal, Confluent)
-              and Impl level (objects with explicit memo fields; one operator per decoder / transport of the code; seven named
-              deviations that TLC must refute; the code's own quirk SizeOfReceived, refuted by SizeExact);  generator of all
+              and Impl level (objects with explicit memo fields; one operator per decoder / transport of the code; nine named
+              deviations that TLC must refute; one quirk the code has (JsonLosesArgs, a known finding), refuted as well);  generator of all
               paths <= K with the Impl level's prediction
   WireShapes  enumeration of constructor trees (witness conditions, signers, attribute lists, stack items, manifests, NEF) with
               the documented limits as Legal(...), and of mutation cases (format x operator x field ordinal)
@@ -34,11 +34,13 @@ RULE = ("cases = (a) one per (value, path): every TLC-enumerated path of transpo
 DEVS = {"HashReceivedBytes": ("PathIndependent", "Confluent"), "SizeBeforeScripts": ("SizeExact",),
         "JsonDropsField": ("PathIndependent", "NoRefusal"), "DbTruncatesEvents": ("PathIndependent",),
         "CompressEdge": ("NoRefusal", "PathIndependent"), "HashSkipsField": ("PathIndependent",),
-        "CopyKeepsMemo": ("PathIndependent", "Confluent")}
+        "CopyKeepsMemo": ("PathIndependent", "Confluent"),
+        # the code before the repairs this check led to
+        "SizeOfReceived": ("SizeExact", "NoRefusal", "Confluent"), "EncodeMarksObject": ("PathIndependent", "Confluent")}
 
 
 # configurations MC_Code_<name>.cfg: quirks of the unchanged code, each refuted by the abstract level
-QUIRKS = {"NC": ("SizeExact", "NoRefusal", "Confluent"), "Mark": ("PathIndependent", "Confluent"), "Args": ("PathIndependent", "Confluent")}
+QUIRKS = {"Args": ("PathIndependent", "Confluent")}
 
 
 def cases_of(out, marker="@@CASE@@"):
@@ -109,7 +111,6 @@ def run(ctx):
     # ... the exhaustive runs go on in the background while the real code is driven (they do not feed the driver)
     models = [
         dict(name="design", module="WirePaths.tla", cfg="MC_Paths.cfg" if q else "MC_Paths_t.cfg", timeout=900 if q else 3000, workers=2 if q else 4),
-        dict(name="code", module="WirePaths.tla", cfg="MC_Code.cfg", timeout=900, workers=2),
     ]
     models += [dict(name="quirk-" + n, module="WirePaths.tla", cfg="MC_Code_%s.cfg" % n, timeout=900, workers=1) for n in QUIRKS]
     models += [dict(name="dev-" + d, module="WirePaths.tla", cfg="MC_Dev_%s.cfg" % d, timeout=900, workers=1) for d in DEVS]
@@ -151,7 +152,6 @@ def run(ctx):
     ms = models_done.result()
     bg.shutdown()
     must_pass(ctx, ms["design"], "WirePaths (design: PathIndependent, SizeExact, NoRefusal, Confluent)")
-    must_pass(ctx, ms["code"], "WirePaths (code as it is, canonical arrivals)")
     # behaviours the code HAS (established on the tree): the abstract level refutes each; whether the real code still has
     # them is what the driver's trace says (a repaired tree shows up as drift against the Impl level's prediction)
     for n, invs in QUIRKS.items():
